@@ -267,4 +267,126 @@ theorem validate_typed_aux (vd : V) (item out : Y) (hp : ∀ (_ : vd = .pow2), F
   case pow2 => exact absurd rfl (fun h => hp h)
   case boolInt => exact vBoolInt_typed _ _ h
 
+/-! ### lists and dicts -/
+
+theorem validateElems_typed (chk : Bool) (vd : V) (hp : ∀ (_ : vd = .pow2), False) (ys : List Y) (out : Item)
+    (h : validateElems chk vd ys = .ok out) :
+    ∃ vs, out = .list vs ∧ vs.length = ys.length ∧ ∀ v ∈ vs, HasType vd v = true := by
+  induction ys generalizing out with
+  | nil => simp [validateElems] at h; exact ⟨[], h.symm, rfl, by simp⟩
+  | cons y rest ih =>
+    unfold validateElems at h
+    split at h
+    · cases h
+    · cases hv : validateItem vd y with
+      | ok v =>
+        simp only [hv] at h
+        cases hr : validateElems chk vd rest with
+        | ok o =>
+          simp only [hr] at h
+          obtain ⟨vs, rfl, hl, ht⟩ := ih o hr
+          simp only [RI.ok.injEq] at h
+          subst h
+          refine ⟨v :: vs, rfl, by simp [hl], ?_⟩
+          intro w hw
+          rcases List.mem_cons.mp hw with rfl | hw
+          · exact validate_typed_aux vd y w hp hv
+          · exact ht w hw
+        | reject => simp [hr] at h
+        | raise => simp [hr] at h
+        | unmodelled => simp [hr] at h
+      | reject => simp [hv] at h
+      | raise => simp [hv] at h
+      | unmodelled => simp [hv] at h
+
+theorem list_typed_aux (vd : V) (vvd : Option V) (brace : Bool) (item out : Item)
+    (hp : ∀ (_ : vd = .pow2), False) (h : validateConfigItem .list vd vvd brace item = .ok out) :
+    ∃ vs, out = .list vs ∧ ∀ v ∈ vs, HasType vd v = true := by
+  unfold validateConfigItem at h
+  simp only [] at h
+  cases ht : toList brace item with
+  | none => simp [ht] at h
+  | some o =>
+    cases o with
+    | none => simp [ht] at h
+    | some ys =>
+      simp only [ht] at h
+      obtain ⟨vs, rfl, _, hty⟩ := validateElems_typed true vd hp ys out h
+      exact ⟨vs, rfl, hty⟩
+
+theorem validateElems_length (chk : Bool) (vd : V) (ys : List Y) (out : Item) (h : validateElems chk vd ys = .ok out) :
+    ∃ vs, out = .list vs ∧ vs.length = ys.length := by
+  induction ys generalizing out with
+  | nil => simp [validateElems] at h; exact ⟨[], h.symm, rfl⟩
+  | cons y rest ih =>
+    unfold validateElems at h
+    split at h
+    · cases h
+    · cases hv : validateItem vd y with
+      | ok v =>
+        simp only [hv] at h
+        cases hr : validateElems chk vd rest with
+        | ok o =>
+          simp only [hr] at h
+          obtain ⟨vs, rfl, hl⟩ := ih o hr
+          simp only [RI.ok.injEq] at h
+          subst h
+          exact ⟨v :: vs, rfl, by simp [hl]⟩
+        | reject => simp [hr] at h
+        | raise => simp [hr] at h
+        | unmodelled => simp [hr] at h
+      | reject => simp [hv] at h
+      | raise => simp [hv] at h
+      | unmodelled => simp [hv] at h
+
+theorem list_length_aux (vd : V) (vvd : Option V) (brace : Bool) (ys : List Y) (out : Item)
+    (h : validateConfigItem .list vd vvd brace (.list ys) = .ok out) : ∃ vs, out = .list vs ∧ vs.length = ys.length := by
+  unfold validateConfigItem at h
+  simp only [toList] at h
+  exact validateElems_length true vd ys out h
+
+theorem validatePairs_typed (kvd vvd : V) (hk : ∀ (_ : kvd = .pow2), False) (hv : ∀ (_ : vvd = .pow2), False)
+    (kvs : List (Y × Y)) (out : Item) (h : validatePairs kvd vvd kvs = .ok out) :
+    ∃ ps, out = .dict ps ∧ ∀ p ∈ ps, HasType kvd p.1 = true ∧ HasType vvd p.2 = true := by
+  induction kvs generalizing out with
+  | nil => simp [validatePairs] at h; exact ⟨[], h.symm, by simp⟩
+  | cons kv rest ih =>
+    obtain ⟨k, v⟩ := kv
+    unfold validatePairs at h
+    cases hkk : validateItem kvd k <;> cases hvv : validateItem vvd v <;> simp only [hkk, hvv] at h <;> try (cases h)
+    rename_i k' v'
+    cases hr : validatePairs kvd vvd rest with
+    | ok o =>
+      simp only [hr] at h
+      obtain ⟨ps, rfl, hty⟩ := ih o hr
+      simp only [] at h
+      split at h
+      · cases h
+      · simp only [RI.ok.injEq] at h
+        subst h
+        refine ⟨(k', v') :: ps, rfl, ?_⟩
+        intro p hpm
+        rcases List.mem_cons.mp hpm with rfl | hpm
+        · exact ⟨validate_typed_aux kvd k k' hk hkk, validate_typed_aux vvd v v' hv hvv⟩
+        · exact hty p hpm
+    | reject => simp [hr] at h
+    | raise => simp [hr] at h
+    | unmodelled => simp [hr] at h
+
+theorem dict_typed_aux (kvd vvd : V) (brace : Bool) (item out : Item)
+    (hk : ∀ (_ : kvd = .pow2), False) (hv : ∀ (_ : vvd = .pow2), False)
+    (h : validateConfigItem .dict kvd (some vvd) brace item = .ok out) :
+    ∃ kvs, out = .dict kvs ∧ ∀ p ∈ kvs, HasType kvd p.1 = true ∧ HasType vvd p.2 = true := by
+  unfold validateConfigItem at h
+  simp only [] at h
+  cases item with
+  | scalar y =>
+    cases y <;> simp only [] at h <;> try (cases h)
+    · exact ⟨[], rfl, by simp⟩
+    · split at h
+      · cases h; exact ⟨[], rfl, by simp⟩
+      · cases h
+  | list ys => cases h
+  | dict kvs => exact validatePairs_typed kvd vvd hk hv kvs out h
+
 end MpfVerif.C12
